@@ -89,6 +89,8 @@ def build_c02(rng, tier):
     opts = gen_opts(rng, inst, ncrit=min(ncrit, 9))
     ops = [['solve', {}], ['get_results'], ['get_results_long'],
            ['get_results_short']]
+    if rng.random() < 0.08:
+        ops.insert(0, ['clobber', {'mode': 'delete'}])
     return lp_base(rng, inst, opts, ops=ops)
 
 
@@ -150,7 +152,7 @@ BUILDERS = {'C01': build_c01, 'C02': build_c02, 'C03': build_c03,
 STATUS_FAULTS = ['status:Infeasible', 'status:Unbounded', 'status:Undefined',
                  'status:Not Solved']
 VALUE_MODES = ['zeros', 'stale', 'garbage']
-LIMITS = [0.5, 1, 5, 60.0, 600, 3600.0]
+LIMITS = [0.5, 1, 5, 60.0, 600, 3600.0, 10 ** 15]
 
 
 def build_c14(rng, tier):
@@ -178,6 +180,10 @@ def clock_plan(rng, limit, K):
     n = K + 3
     if limit is None:
         return [10 ** rng.uniform(-5, 4) for _ in range(n)]
+    if limit > 1e9:
+        # the simulated calendar ends in year 9999: such a limit cannot be
+        # exceeded, only respected
+        return [10 ** rng.uniform(-5, 3) for _ in range(n)]
     mode = rng.choice(['fast', 'fast', 'one-long', 'sum-exceeds',
                        'slow-under'])
     if mode == 'fast':
@@ -194,7 +200,7 @@ def clock_plan(rng, limit, K):
 def c14_plans(rng, K, limit, tier):
     """All single faults, plus a seeded sample of pairs."""
     kinds = list(STATUS_FAULTS)
-    if limit is not None:
+    if limit is not None and limit <= 1e9:
         kinds += ['tl-incumbent', 'tl-no-incumbent']
     plans = []
     for pos in range(1, K + 1):
@@ -247,9 +253,14 @@ def build_c16(rng, tier):
         for c in opts['criteria']:
             if c['name'] in ('gen', 'gre') and rng.random() < 0.5:
                 c['extra'] = gen_extra(rng, c['name'], mr, always=True)
-        sc = lp_base(rng, inst, opts, ops=[['solve', {}], ['get_results'],
-                                           ['get_results_long']])
+        limit = rng.choice([None, None, None] + LIMITS)
+        sc = lp_base(rng, inst, opts,
+                     ops=[['solve', {'timeLimit': limit}], ['get_results'],
+                          ['get_results_long']])
         sc['c16'] = kind
+        sc['limit'] = limit
+        if limit is not None:
+            sc['backend']['durations'] = clock_plan(rng, limit, 6)
         return sc
     # refusals
     why = rng.choice(['pos-out-of-range', 'pos-out-of-range', 'duplicate-pos',
@@ -305,23 +316,44 @@ def build_c18(rng, tier):
     else:
         opts = gen_opts(rng, inst)
     n = rng.randint(2, 12)
-    ops = [['solve', {'timeLimit': rng.choice([None, None, 10 ** 9])}]]
+    big_limits = [None, None, 10 ** 9, 10 ** 15, 1e18]
+    ops = [['solve', {'timeLimit': rng.choice(big_limits)}]]
     while len(ops) < n:
         x = rng.random()
         if x < 0.2:
-            ops.append(['solve', {'timeLimit': rng.choice([None, None,
-                                                          10 ** 9])}])
+            ops.append(['solve', {'timeLimit': rng.choice(big_limits)}])
         elif x < 0.3:
             ops.append(['idle', {'seconds': 10 ** rng.uniform(-3, 4)}])
         else:
             ops.append([rng.choice(GETTERS)])
     if not any(o[0] in GETTERS for o in ops):
         ops.append([rng.choice(GETTERS)])
+    if rng.random() < 0.2:
+        # the instance file is deleted or overwritten after construction
+        if rng.random() < 0.5:
+            cl = ['clobber', {'mode': 'delete'}]
+        else:
+            other = instances.gen_instance(rng, {'shape': 'small',
+                                                 'na': inst['na']},
+                                           thorough=False)
+            cl = ['clobber', {'mode': 'overwrite',
+                              'text': instances.render(other)}]
+        ops.insert(rng.randint(0, len(ops)), cl)
     if rng.random() < 0.25:
-        # another Solver object works on another instance in between
-        inst2 = instances.gen_instance(rng, {'shape': 'small'},
-                                       thorough=False)
-        if rng.random() < 0.2:
+        # another Solver object works in between: on another instance, or on
+        # a byte-identical one (objects must not share state either way)
+        if rng.random() < 0.5 and not bf:
+            import copy as _copy
+            inst2 = _copy.deepcopy(inst)
+            opts2 = _copy.deepcopy(opts) if rng.random() < 0.5 else \
+                gen_opts(rng, inst2)
+        else:
+            inst2 = instances.gen_instance(rng, {'shape': 'small'},
+                                           thorough=False)
+            opts2 = None
+        if opts2 is not None:
+            pass
+        elif rng.random() < 0.2:
             opts2 = {'criteria': [], 'pc': rng.random() < 0.4,
                      'stab': False, 'bf': True}
         else:
@@ -487,10 +519,17 @@ def gen_params(rng, mp=None, small=False, big_lists=False, twopl=None):
                 p['llq'] = rng.randint(0, p['lt'])
         elif rng.random() < 0.3:
             p['llq'] = 0
+    def prob():
+        x = rng.random()
+        if x < 0.75:
+            return rng.choice([0, 0.0, .3, .5, .7, 1, 1.0])
+        if x < 0.9:
+            return rng.random()                       # e.g. 0.8444218515
+        return rng.random() * 10 ** -rng.randint(3, 8)    # e.g. 5.1e-06
     if rng.random() < 0.7:
-        p['t1'] = rng.choice([0, 0.0, .3, .5, .7, 1, 1.0])
+        p['t1'] = prob()
     if mp != 'ha' and rng.random() < 0.7:
-        p['t2'] = rng.choice([0, 0.0, .3, .5, .7, 1, 1.0])
+        p['t2'] = prob()
     if rng.random() < 0.5:
         p['skew'] = rng.choice([.5, 1, 1.0, 3, 10, 2.5])
     if mp in ('sm', 'hr'):
@@ -517,6 +556,10 @@ def gen_base(rng, params, sessions=None, spy_ties=False):
         sc['out_rel'] = 'deep/er/out'      # nested output directory
     elif x < 0.30:
         sc['precreate_out'] = True         # output directory exists already
+        if rng.random() < 0.5:             # ... with files of an earlier run
+            sc['stale_files'] = rng.randint(1, params.get('numinst') or 1)
+    if rng.random() < 0.15:
+        sc['rel_out'] = True               # run from the parent, -o <name>
     return sc
 
 
@@ -538,6 +581,8 @@ def build_c08(rng, tier):
         sc = gen_base(rng, p)
         sc['reach'] = True
         return sc
+    if rng.random() < 0.004:
+        return gen_base(rng, huge_params(rng, twopl=rng.random() < 0.7))
     p = gen_params(rng)
     if p['mp'] == 'spa' and rng.random() < 0.5:
         # wider project / lecturer counts: every relation of n2 mod n3
@@ -551,7 +596,41 @@ def build_c08(rng, tier):
     return gen_base(rng, p)
 
 
+def huge_params(rng, twopl=True):
+    """magnitudes far beyond the small shapes: > 1000 first-side agents, or
+    > 64 lecturers (generator only, no solve)"""
+    if rng.random() < 0.5:
+        mp = rng.choice(['hr', 'spa'])
+        p = gen_params(rng, mp=mp, twopl=twopl)
+        p['n1'] = rng.randint(1001, 1200)
+        p['n2'] = rng.randint(1, 3)
+        if mp == 'spa':
+            p['n3'] = rng.randint(1, 2)
+            p['luq'] = p['n1']
+            p['lt'] = p['llq'] = None
+        p['pmax'] = rng.randint(1, p['n2'])
+        p['pmin'] = rng.randint(1, p['pmax'])
+        p['uq'] = p['n1']
+        p['lq'] = None
+        p['t2'] = rng.choice([None, 0, 0.3])
+    else:
+        p = gen_params(rng, mp='spa', twopl=twopl)
+        p['n3'] = rng.randint(65, 90)
+        p['n2'] = rng.randint(p['n3'], p['n3'] + 20)
+        p['n1'] = rng.randint(3, 12)
+        p['pmax'] = rng.randint(2, 6)
+        p['pmin'] = rng.randint(1, p['pmax'])
+        p['uq'] = p['n2'] + rng.randint(0, 5)
+        p['lq'] = None
+        p['luq'] = p['n3'] + rng.randint(0, 9)
+        p['lt'] = p['llq'] = None
+    p['numinst'] = 1
+    return p
+
+
 def build_c12(rng, tier):
+    if rng.random() < 0.004:
+        return gen_base(rng, huge_params(rng))
     mp = rng.choice(['sm', 'hr', 'spa', 'spa'])
     p = gen_params(rng, mp=mp, twopl=True)
     if mp == 'spa' and rng.random() < 0.5:
